@@ -3,8 +3,9 @@ package c18
 // Coverage-audit extension of the btp family (extra calls appended after the original ones of a session,
 // drawn from an independent random stream so that the original draws are unchanged):
 //
-//   - scale classes pow2lvl-{top,up,low}: an exact power-of-two scale other than the default one on an
-//     input at level >= 1 (the original draw only leaves the default scale at level >= 1, apart from the
+//   - scale classes pow2lvl-{top,up,low,2primes}: an exact power-of-two scale other than the default one on an
+//     input at level >= 1 (2primes: above Q0*Q1/MessageRatio at level >= 2, so that the scale matching of
+//     ScaleDown spans two primes) (the original draw only leaves the default scale at level >= 1, apart from the
 //     triaged non-power-of-two class);
 //   - chain: the output of Bootstrap, dropped back to the input level, is bootstrapped again (history:
 //     the output of the circuit, with the metadata the circuit gave it, is an admissible input).
@@ -32,6 +33,11 @@ func (s *session) drawExtInputs(r *eng.Rand, thorough bool) []input {
 		in := input{Batch: 1, LogSlots: maxLS, Copy: r.Bool()}
 		in.Level = max(1, minL) + r.N(maxL-max(1, minL)+1)
 		in.Scale = eng.Pick(r, "pow2lvl-top", "pow2lvl-up", "pow2lvl-low")
+		if maxL >= 2 && r.N(3) == 0 {
+			in.Scale = "pow2lvl-2primes"
+			in.Level = 2 + r.N(maxL-1)
+			s.c.Count("inputs_needing_two_primes_of_scale_matching", 1)
+		}
 		in.Mag = eng.Pick(r, "unit", "mid", "max", "const")
 		if !s.ci && r.Bool() {
 			in.LogSlots = r.N(maxLS + 1)
